@@ -129,6 +129,48 @@ async def run_steps(env: Env, node: NodeSpec, phase: str, steps: list):
             v = await get_resource(t, name)
             env.values[(node.idx, label)] = v
             env.ev("wait_end", node.idx, label)
+        elif k == "tf":
+            # ("tf", label, checkpoints before started()): start a task factory and a task with a slow start-up in it
+            _, label, pre = st
+            from asphalt.core import start_background_task_factory
+
+            tf = await start_background_task_factory()
+
+            async def job(*, task_status, label=label, pre=pre):
+                env.ev("job_begin", label)
+                for _ in range(pre):
+                    await anyio.sleep(0)
+                task_status.started()
+                env.ev("job_started", label)
+
+            await tf.start_task(job, label)
+            env.ev("tf_done", node.idx, label)
+        elif k == "stall":
+            # ("stall", kind): never finishes; what the component is suspended in differs
+            kind = st[1]
+            env.ev("stalling", node.idx, kind)
+            if kind == "anext":
+
+                async def agen():
+                    await anyio.sleep_forever()
+                    yield 1
+
+                await anext(agen(), None)
+            elif kind == "aclose":
+
+                async def agen2():
+                    try:
+                        yield 1
+                    finally:
+                        await anyio.sleep_forever()
+
+                it = agen2()
+                await it.__anext__()
+                await it.aclose()
+            elif kind == "event":
+                await anyio.Event().wait()
+            else:
+                await anyio.sleep_forever()
         elif k == "giveup":
             # ("giveup", type, name): an optional dependency that is given up at once (cancelled while waiting)
             _, t, name = st
